@@ -122,7 +122,7 @@ m = {
   {"name": "filters", "path": "spec/CalFilter.tla spec/CalGen.tla spec/CalJudge.tla spec/CardFilter.tla spec/CardGen.tla spec/CardJudge.tla spec/ValJudge.tla harness/cmd/calrec harness/cmd/cardrec lib/checks_filter.py",
    "serves_properties": ["C06", "C07", "C19"],
    "kind_free_text": "RFC decision procedures transcribed as TLA+ operators; TLC enumerates the bounded input space and judges every verdict of the real Go functions"},
-  {"name": "conc", "path": "spec/Upload.tla spec/UploadTrace.tla spec/DavConc.tla lib/upgraph.py harness/cmd/uprec harness/cmd/concrec lib/checks_conc.py",
+  {"name": "conc", "path": "spec/Upload.tla spec/UploadTrace.tla spec/DavConc.tla lib/upgraph.py harness/cmd/uprec harness/cmd/concrec harness/cmd/davxrec lib/checks_conc.py",
    "serves_properties": ["C18"],
    "kind_free_text": "protocol model with liveness; state-graph transition cover replayed into the real code; trace validation of real-transport runs; concurrency histories under the race detector"},
   {"name": "wire", "path": "spec/XmlOps.tla spec/CalWire.tla spec/CalWireGen.tla spec/CalWireJudge.tla spec/CardWire.tla spec/CardWireGen.tla spec/CardWireJudge.tla harness/xmlt harness/cmd/wirerec lib/checks_wire.py",
@@ -131,7 +131,7 @@ m = {
   {"name": "hier", "path": "spec/Hier.tla spec/HierGen.tla spec/HierJudge.tla harness/cmd/hierrec harness/backends lib/checks_hier.py",
    "serves_properties": ["C11", "C12"],
    "kind_free_text": "hierarchy / routing / scope / accounting rules as TLA+ operators; TLC enumerates requests; real handlers with recording backends and real clients; TLC judge"},
-  {"name": "davwire", "path": "spec/DavWire.tla spec/DavWireGen.tla spec/C14Judge.tla spec/C10Gen.tla spec/C10Judge.tla spec/C05Gen.tla spec/C05Judge.tla harness/cmd/clirec lib/checks_davwire.py lib/checks_c10.py lib/checks_c05.py",
+  {"name": "davwire", "path": "spec/DavWire.tla spec/DavWireGen.tla spec/C14Judge.tla spec/C10Gen.tla spec/C10Judge.tla spec/C05Gen.tla spec/C05Judge.tla harness/cmd/clirec harness/cmd/clihist lib/checks_davwire.py lib/checks_c10.py lib/checks_c05.py lib/checks_clihist.py",
    "serves_properties": ["C05", "C10", "C14"],
    "kind_free_text": "client-side relations in TLA+; TLC enumerates cases and judges observations of the real clients against backend doubles, scripted transports and independent-writer documents"},
   {"name": "xmlprims", "path": "spec/Xml.tla spec/XmlGen.tla spec/XmlJudge.tla spec/Prims.tla spec/PrimsJudge.tla harness/overlay lib/checks_xml.py",
@@ -140,7 +140,7 @@ m = {
   {"name": "robust", "path": "spec/Robust.tla spec/RobustGen.tla spec/RobustJudge.tla harness/cmd/robrec lib/checks_robust.py",
    "serves_properties": ["C13"],
    "kind_free_text": "malformedness classification and XML mutation operators in TLA+; TLC enumerates requests and mutants; real handlers; TLC judge"},
-  {"name": "davtree", "path": "spec/DavTree.tla spec/DavTreeMC.tla spec/DavSim.tla spec/DavJudge.tla harness/cmd/davrec lib/checks_dav.py",
+  {"name": "davtree", "path": "spec/DavTree.tla spec/DavTreeMC.tla spec/DavSim.tla spec/DavPairs.tla spec/DavRaw.tla spec/DavJudge.tla spec/CondJudge.tla harness/cmd/davrec harness/cmd/c04rec harness/dav lib/checks_dav.py lib/checks_dav_c03.py lib/checks_dav_c04.py",
    "serves_properties": ["C01", "C02", "C03", "C04", "C17"],
    "kind_free_text": "TLA+ resource-tree specification; TLC model check + case generation; Go recorder on the real webdav.Handler; TLC trace-validation judge"},
  ],
